@@ -18,6 +18,10 @@ CONFIGS = [
     ("root, hidepid=2", {"extra": ["--newns", "--proc-opts", "hidepid=2"]}),
     ("root, subset=pid", {"extra": ["--newns", "--proc-opts", "subset=pid"]}),
     ("root, subset=pid, no private mounts possible", {"extra": ["--newns", "--proc-opts", "subset=pid"], "deny": ("fsopen", "open_tree")}),
+    # no new procfs instance can be made, but the masked host mount can be cloned (what 'root' of a user namespace that does not
+    # own its pid namespace gets): every clone is a new mount of the same masked superblock
+    ("root, subset=pid, fsopen unavailable (clones of the masked mount possible)", {"extra": ["--newns", "--proc-opts", "subset=pid"], "deny": ("fsopen",)}),
+    ("root, subset=pid + hidepid=2, fsopen unavailable", {"extra": ["--newns", "--proc-opts", "subset=pid,hidepid=2"], "deny": ("fsopen",)}),
     ("root, hidepid=2, no private mounts possible", {"extra": ["--newns", "--proc-opts", "hidepid=2"], "deny": ("fsopen", "open_tree")}),
     ("uid 2000, default /proc", {"extra": ["--newns"], "uid": 2000}),
     ("uid 2000, hidepid=1", {"extra": ["--newns", "--proc-opts", "hidepid=1"], "uid": 2000}),
@@ -127,7 +131,7 @@ def run(ck):
     cov = {
         "evaluations": stats["runs"],
         "distinct_nontrivial": len(nontrivial),
-        "rule": "10 procfs configurations (caller root / uid 2000 x host /proc options default, hidepid=1/2/ptraceable, subset=pid x private-mount "
+        "rule": "12 procfs configurations (caller root / uid 2000 x host /proc options default, hidepid=1/2/ptraceable, subset=pid x private-mount "
                 "constructors available / denied) x both procfs resolvers x bases x {existing, missing, masked-but-existing} sub-paths x {open, readlink}; "
                 "every run in a fresh driver process in its own mount namespace; distinct by (configuration, resolver, op, path, base, outcome)",
         "samples": samples or [{"note": "none"}],
